@@ -1,50 +1,31 @@
 #!/bin/bash
-# usage: tools/run_mutants.sh [prop]  -- applies every corpus mutant to a scratch copy of /repo and checks the verdict
-# Each "caught" mutant must make the property's check exit 1; each "equivalent" one must leave it at 0.
+# usage: tools/run_mutants.sh [prop]  -- applies every corpus mutant, fix-revert canary and seeded change to a
+# scratch copy of /repo (one at a time per job, MUT_JOBS jobs in parallel) and compares the verdict with the expected one.
+# Each "caught" change must make the property's check exit 1; each "equivalent" one must leave it at 0.
 cd /verif
 filter="${1:-}"
-ok=0; bad=0
+jobs=$(mktemp /tmp/mutjobs.XXXXXX)
 while IFS=$'\t' read -r prop file expr expect; do
   [[ "$prop" =~ ^# ]] && continue
   [ -z "$prop" ] && continue
   [ -n "$filter" ] && [ "$prop" != "$filter" ] && continue
-  d=$(mktemp -d /tmp/mutc.XXXXXX)
-  rsync -a --exclude .git /repo/ "$d/"
-  sed -i "$expr" "$d/$file"
-  if diff -q /repo/$file $d/$file >/dev/null; then echo "NOT-APPLIED $prop $file $expr"; bad=$((bad+1)); rm -rf $d; continue; fi
-  if ! (cd $d && GOFLAGS=-mod=mod GOPROXY=off go build ./$(dirname $file)/ >/dev/null 2>&1); then echo "NO-BUILD $prop $file $expr"; bad=$((bad+1)); rm -rf $d; continue; fi
-  GOVC_NOREPLAY=1 ./bin/govc check -prop "$prop" -repo "$d" -verif /verif -no-evidence -out "$d/out" >/dev/null 2>&1
-  rc=$?
-  rm -rf "$d"
-  verdict=equivalent; [ $rc -eq 1 ] && verdict=caught; [ $rc -ge 2 ] && verdict=fault
-  if [ "$expect" = "missed" ] && [ "$verdict" = "equivalent" ]; then ok=$((ok+1)); echo "gap  $prop not detected (declined clause): $expr"; elif [ "$verdict" = "$expect" ]; then ok=$((ok+1)); echo "ok   $prop $verdict: $expr"; else bad=$((bad+1)); echo "BAD  $prop expected=$expect got=$verdict: $file $expr"; fi
+  printf '%s\0%s\0%s\0%s\0%s\0' sed "$prop" "$file" "$expr" "$expect" >> $jobs
 done < mutants/corpus.tsv
 for pf in mutants/patches/*.diff; do
   [ -f "$pf" ] || continue
   prop=$(sed -n 's/^# prop: //p' "$pf"); expect=$(sed -n 's/^# expect: //p' "$pf")
   [ -n "$filter" ] && [ "$prop" != "$filter" ] && continue
-  d=$(mktemp -d /tmp/mutc.XXXXXX)
-  rsync -a --exclude .git /repo/ "$d/"
-  if ! (cd $d && grep -v '^# ' /verif/$pf | patch -p1 -s >/dev/null 2>&1); then echo "NOT-APPLIED $pf"; bad=$((bad+1)); rm -rf $d; continue; fi
-  if ! (cd $d && GOFLAGS=-mod=mod GOPROXY=off go build ./... >/dev/null 2>&1); then echo "NO-BUILD $pf"; bad=$((bad+1)); rm -rf $d; continue; fi
-  GOVC_NOREPLAY=1 ./bin/govc check -prop "$prop" -repo "$d" -verif /verif -no-evidence -out "$d/out" >/dev/null 2>&1
-  rc=$?
-  rm -rf "$d"
-  verdict=equivalent; [ $rc -eq 1 ] && verdict=caught; [ $rc -ge 2 ] && verdict=fault
-  if [ "$verdict" = "$expect" ]; then ok=$((ok+1)); echo "ok   $prop $verdict: $pf"; else bad=$((bad+1)); echo "BAD  $prop expected=$expect got=$verdict: $pf"; fi
+  printf '%s\0%s\0%s\0%s\0%s\0' patch "$prop" "$pf" "$expect" "-" >> $jobs
 done
 for sd in seeded/*/; do
   [ -f "$sd/patch.diff" ] || continue
   prop=$(python3 -c "import json;print(json.load(open('$sd/meta.json'))['property'])"); expect=$(python3 -c "import json;print(json.load(open('$sd/meta.json'))['our_check']['verdict'])")
   [ -n "$filter" ] && [ "$prop" != "$filter" ] && continue
-  d=$(mktemp -d /tmp/mutc.XXXXXX)
-  rsync -a --exclude .git /repo/ "$d/"
-  if ! (cd $d && patch -p1 -s < /verif/$sd/patch.diff >/dev/null 2>&1); then echo "NOT-APPLIED $sd"; bad=$((bad+1)); rm -rf $d; continue; fi
-  GOVC_NOREPLAY=1 ./bin/govc check -prop "$prop" -repo "$d" -verif /verif -no-evidence -out "$d/out" >/dev/null 2>&1
-  rc=$?
-  rm -rf "$d"
-  verdict=missed; [ $rc -eq 1 ] && verdict=caught; [ $rc -ge 2 ] && verdict=fault
-  if [ "$verdict" = "$expect" ]; then ok=$((ok+1)); echo "ok   $prop seeded $verdict: $sd"; else bad=$((bad+1)); echo "BAD  $prop seeded expected=$expect got=$verdict: $sd"; fi
+  printf '%s\0%s\0%s\0%s\0%s\0' seeded "$prop" "$sd" "$expect" "-" >> $jobs
 done
+out=$(mktemp /tmp/mutout.XXXXXX)
+xargs -0 -n 5 -P "${MUT_JOBS:-4}" tools/mutant_one.sh < $jobs | tee $out
+ok=$(grep -c "^ok \|^gap " $out); bad=$(grep -vc "^ok \|^gap " $out)
+rm -f $jobs $out
 echo "mutants: $ok as expected, $bad unexpected"
 [ $bad -eq 0 ]
